@@ -30,6 +30,8 @@ def gen_cases(rng, n):
         cases.append({"seed": rng.randrange(1 << 30), "stream": "params", "force": force})
     for st in ("plain", "indels"):
         cases.append({"seed": rng.randrange(1 << 30), "stream": st, "reuse_path": True})
+    for st in ("plain", "structures"):
+        cases.append({"seed": rng.randrange(1 << 30), "stream": st, "decoy_member": True})
     return cases
 
 
@@ -241,6 +243,31 @@ def run_case(case):
         res["run2"] = r2
         res["out1"] = open(out1).read() if os.path.exists(out1) else None
         res["out2"] = open(out2).read() if os.path.exists(out2) else None
+        if case.get("decoy_member"):
+            # the archive of a multi-gene run on a file whose NAME has the gene's name as a dotted component holds, next to
+            # "<input>.<GENE>.dump", members like "<input>.<OTHER>.dump" = "x.<GENE>.<OTHER>.dump": the replay has to read the member of
+            # ITS gene.  Here: the same archive with such a member (an emptied copy of the dump) placed first
+            try:
+                arch3, out3 = os.path.join(d, "decoy.tar.gz"), os.path.join(d, "run3.aldy")
+                with tarfile.open(archive, "r:gz") as tin, tarfile.open(arch3, "w:gz") as tout:
+                    members = tin.getmembers()
+                    dm = next(m for m in members if m.name.endswith(".dump"))
+                    tup = list(pickle.load(gzip.open(tin.extractfile(dm))))
+                    tup[3], tup[4] = {}, {}          # norm, muts emptied
+                    raw = io.BytesIO()
+                    with gzip.GzipFile(fileobj=raw, mode="wb") as gz:
+                        pickle.dump(tuple(tup), gz)
+                    info = tarfile.TarInfo(dm.name[:-len(".dump")] + ".OTHERGENE.dump")
+                    info.size = len(raw.getvalue())
+                    tout.addfile(info, io.BytesIO(raw.getvalue()))
+                    for m in members:
+                        tout.addfile(m, tin.extractfile(m) if m.isfile() else None)
+                r3, _cap3 = run_main(["genotype", arch3, "--gene", yml, "--output", out3] + prof_arg + cn_arg + pargs)
+                res["run2"] = r3
+                res["out2"] = open(out3).read() if os.path.exists(out3) else None
+                res["extra"] = dict(res["extra"], decoy_member=True)
+            except StopIteration:
+                pass
         # ---- archive content and states for the Dump.v correspondence
         with tarfile.open(archive, "r:gz") as tar:
             names = tar.getnames()
